@@ -17,8 +17,8 @@ def check(ctx):
         args = ['--bound', str(bound), '--jobs', str(min(vlib.NJOBS, 6 if ctx.tier == 'quick' else 12)), '--outdir', vlib.OUT, '--deadline', str(deadline)]
         ctx.run_engine(exe, args, label='obj-%s-b%d' % (sets.replace(',', '+'), bound), timeout=deadline + 600, env=env)
     if ctx.tier == 'quick':
-        leg('quick', 2, 45)
-        leg('ctor3', 1, 20)
+        leg('quick', 2, 40)
+        leg('ctor3', 1, 15)
     else:
         leg('quick,more', 5, 450)
         leg('ctor3', 2, 250)
